@@ -40,8 +40,9 @@ type FuncAlt struct {
 type FuncV struct{ alts []FuncAlt }
 
 type StrAlt struct {
-	c *Term
-	s string
+	c    *Term
+	s    string
+	atom *Term // non-nil: an opaque symbolic string identified by this 64-bit id (supports only ==, copying, map keys)
 }
 
 // StringV: alternatives are mutually exclusive and exhaustive.
@@ -100,13 +101,24 @@ var objCtr int
 
 func nextID() int { objCtr++; return objCtr }
 
-func Str(s string) StringV { return StringV{[]StrAlt{{TS.True, s}}} }
+func Str(s string) StringV { return StringV{[]StrAlt{{c: TS.True, s: s}}} }
+
+func AtomStr(id *Term) StringV { return StringV{[]StrAlt{{c: TS.True, atom: id}}} }
 
 func (s StringV) Concrete() (string, bool) {
-	if len(s.alts) == 1 {
+	if len(s.alts) == 1 && s.alts[0].atom == nil {
 		return s.alts[0].s, true
 	}
 	return "", false
+}
+
+func (s StringV) hasAtom() bool {
+	for _, a := range s.alts {
+		if a.atom != nil {
+			return true
+		}
+	}
+	return false
 }
 
 func isPoison(v Value) bool { _, ok := v.(Poison); return ok }
@@ -500,24 +512,24 @@ func iteV(c *Term, a, b Value) Value {
 			return Poison{why: "ite kind mismatch (string)"}
 		}
 		var out []StrAlt
-		add := func(cond *Term, s string) {
+		add := func(cond *Term, al StrAlt) {
 			if cond.IsFalse() {
 				return
 			}
 			for i := range out {
-				if out[i].s == s {
+				if out[i].atom == al.atom && out[i].s == al.s {
 					out[i].c = Or(out[i].c, cond)
 					return
 				}
 			}
-			out = append(out, StrAlt{cond, s})
+			out = append(out, StrAlt{cond, al.s, al.atom})
 		}
 		for _, al := range x.alts {
-			add(And(c, al.c), al.s)
+			add(And(c, al.c), al)
 		}
 		nc := Not(c)
 		for _, al := range y.alts {
-			add(And(nc, al.c), al.s)
+			add(And(nc, al.c), al)
 		}
 		if len(out) == 1 {
 			out[0].c = TS.True
@@ -587,7 +599,10 @@ func eqV(a, b Value) *Term {
 		var ds []*Term
 		for _, p := range x.alts {
 			for _, q := range y.alts {
-				if p.s == q.s {
+				switch {
+				case p.atom != nil && q.atom != nil:
+					ds = append(ds, And(p.c, q.c, Eq(p.atom, q.atom)))
+				case p.atom == nil && q.atom == nil && p.s == q.s:
 					ds = append(ds, And(p.c, q.c))
 				}
 			}
